@@ -55,6 +55,11 @@ func (s *serializer) Scan(value interface{}) error {
 
 // Value implements driver.Valuer interface
 func (s serializer) Value() (driver.Value, error) {
+	// like database/sql for driver.Valuer: a nil pointer whose Value method has a value receiver is NULL
+	if rv := reflect.ValueOf(s.SerializeValuer); rv.Kind() == reflect.Ptr && rv.IsNil() &&
+		rv.Type().Elem().Implements(reflect.TypeOf((*SerializerValuerInterface)(nil)).Elem()) {
+		return nil, nil
+	}
 	return s.SerializeValuer.Value(s.Context, s.Field, s.Destination, s.fieldValue)
 }
 
